@@ -450,6 +450,63 @@ def r7_pecs(repo):
     return obs
 
 
+def r6_preassigned_propagation(repo):
+    """A type argument the caller pre-assigned to a parameter whose bound is another type parameter is propagated to
+    that bound (update_type_var_bound_rec).  Evaluated over all abstract inputs (finite-domain evaluation of the block
+    that contains the call): what is propagated is never an `in` projection, and whenever a projection was unwrapped or
+    replaced the parameter's own variance choices are closed."""
+    f = repo.fn(CTVA)
+    lp, idx, tparam = _main_loop(f)
+    calls = [c for c in calls_in(lp) if call_name(c) == "update_type_var_bound_rec"]
+    obs = []
+    if len(calls) != 1:
+        raise AnalysisError("expected one update_type_var_bound_rec call in the main loop", rule="C08-R6", anchor=f.qualname)
+    call = calls[0]
+    blk = None
+    for a in ancestors(call):
+        if isinstance(a, ast.If) and "bound" in src(a.test) and "is_type_var" in src(a.test) and _stmt(call) in a.body:
+            blk = a
+            break
+    if blk is None:
+        raise AnalysisError("block `if <param>.bound and <param>.bound.is_type_var():` around the propagation not found",
+                            rule="C08-R6", anchor=f.qualname)
+    tname = src(call.args[1])
+    ftc = "for_type_constructor"
+    vc = f.params[3]
+    fake = ast.FunctionDef(name="_blk", args=None, body=blk.body, decorator_list=[])
+    n_rows = 0
+    for kind, decl, choices, ftcv in itertools.product(["plain", "out", "in"], ["inv", "cov", "contra"],
+                                                       [None, "dict"], [False, True]):
+        B = absint.AObj("B", is_wildcard=lambda: False, is_covariant=lambda: False, is_contravariant=lambda: False,
+                        is_invariant=lambda: True)
+        t = B if kind == "plain" else absint.AObj(
+            "in B" if kind == "in" else "out B", is_wildcard=lambda: True, bound=B,
+            is_covariant=lambda k=kind: k == "out", is_contravariant=lambda k=kind: k == "in", is_invariant=lambda: False)
+        P = absint.AObj("P", is_invariant=lambda d=decl: d == "inv", is_covariant=lambda d=decl: d == "cov",
+                        is_contravariant=lambda d=decl: d == "contra")
+        sent = []
+        env = {tname: t, tparam: P, vc: None if choices is None else {}, ftc: ftcv,
+               "t_args": "T_ARGS", "indexes": "INDEXES", "type_var_map": "MAP"}
+        hooks = {"update_type_var_bound_rec()": (lambda env, *a: sent.append(a[1])),
+                 "tp.Nothing": absint.AObj("Nothing", is_wildcard=lambda: False)}
+        absint.run(fake, env, hooks)
+        n_rows += 1
+        key = "row:arg=%s declared=%s choices=%s for_type_constructor=%s" % (kind, decl, choices, ftcv)
+        got = sent[0].name if len(sent) == 1 else "calls=%d" % len(sent)
+        closed = (env[vc] or {}).get("P") if choices else None
+        ok = len(sent) == 1 and got != "in B" and not (got == "out B" and decl == "contra")
+        if choices and kind == "in":
+            ok = ok and closed == (False, False)
+        if choices and kind == "out" and decl == "contra":
+            ok = ok and closed == (False, False)
+        obs.append(Ob("C08-R6", key, _w(f, call), ok,
+                      "propagated to the bounding parameter: %s; variance choices of the parameter afterwards: %s.  An "
+                      "`in` projection (or an `out` projection of a contravariant parameter) must be unwrapped before it "
+                      "is propagated, and the parameter's variance choices closed" % (got, closed),
+                      {"propagated": got, "choices_after": str(closed)}))
+    return obs
+
+
 def rules():
     return [
         RuleSpec("C08-R1", "exactly one argument and one map entry per type parameter", 5, r1_exactly_one),
@@ -458,6 +515,8 @@ def rules():
         RuleSpec("C08-R3", "single projection construction site, variance from the decision function", 1, r3_wildcard_site),
         RuleSpec("C08-R4", "candidate pool: filtered, boxed, every call site keeps only_regular", 22, r4_pool),
         RuleSpec("C08-R5", "bounds drive the pool; pre-assignments kept", 5, r5_r6_pools),
+        RuleSpec("C08-R6", "pre-assigned arguments: what is propagated up the bound chain (all abstract inputs)", 36,
+                 r6_preassigned_propagation),
         RuleSpec("C08-R7", "PECS tables", 2, r7_pecs),
     ]
 
